@@ -95,6 +95,19 @@ func genC05(rt *rapid.T) C05Case {
 		f := rapid.SampledFrom(optFields).Draw(rt, "field")
 		c.Options = append(c.Options, mutateOpt(rt, base, f))
 	}
+	if rapid.IntRange(0, 7).Draw(rt, "nonfinite") == 0 {
+		// factors that are no finite numbers (a division by zero upstream): they are option values like any other, and
+		// two requests that differ elsewhere must still not share an entry
+		i := rapid.IntRange(0, len(c.Options)-1).Draw(rt, "nfi")
+		v := rapid.SampledFrom([]string{"+Inf", "NaN", "-Inf"}).Draw(rt, "nfv")
+		if rapid.Bool().Draw(rt, "nfwhere") {
+			c.Options[i].NonFinite = map[string]string{"pboost": v}
+		} else {
+			c.Options[i].NonFinite = map[string]string{"boost:" + genWord(rt, "nfw"): v}
+		}
+		// and a sibling that differs in one other field
+		c.Options = append(c.Options, mutateOpt(rt, c.Options[i], rapid.SampledFrom([]string{"ponly", "nlp", "allp", "cap", "fuzzy"}).Draw(rt, "nff")))
+	}
 	c.LiveOpts = rapid.IntRange(0, 2).Draw(rt, "liveopts") == 0
 	c.Stock = rapid.IntRange(0, 9).Draw(rt, "stock") == 0
 	c.Capacity = rapid.IntRange(1, 6).Draw(rt, "capacity")
@@ -153,6 +166,9 @@ func optDiff(a, b Opts) []string {
 	}
 	if a.PipelineBoost != b.PipelineBoost {
 		d = append(d, "pboost")
+	}
+	if !reflect.DeepEqual(a.NonFinite, b.NonFinite) && (len(a.NonFinite) > 0 || len(b.NonFinite) > 0) {
+		d = append(d, "nonfinite")
 	}
 	if a.UseFuzzy != b.UseFuzzy {
 		d = append(d, "fuzzy")
@@ -314,6 +330,15 @@ func runC05Body(c C05Case) *Outcome {
 			}
 			nb[op.Word] = op.F
 			opts[oi].ContextBoosts = nb
+			if _, had := opts[oi].NonFinite["boost:"+op.Word]; had { // the finite value replaces a non-finite one
+				nf := map[string]string{}
+				for k, v := range opts[oi].NonFinite {
+					if k != "boost:"+op.Word {
+						nf[k] = v
+					}
+				}
+				opts[oi].NonFinite = nf
+			}
 			if live[oi].ContextBoosts == nil {
 				live[oi].ContextBoosts = map[string]float64{}
 			}
